@@ -102,7 +102,7 @@ inductive Spell : Tok → List Char → Prop
   | lparen : Spell .lparen ['(']
   | rparen : Spell .rparen [')']
   | comma : Spell .comma [',']
-  | call (id ws : List Char) : IdentShape id → 2 ≤ id.length → AllSpace ws →
+  | call (id ws : List Char) : IdentShape id → 1 ≤ id.length → AllSpace ws →
       Spell (.call (Name.ofString (String.ofList id))) (id ++ (ws ++ ['(']))
   | var (id : List Char) : IdentShape id → Spell (.var (Name.ofString (String.ofList id))) id
   | varEx (ws raw : List Char) : AllSpace ws → raw ≠ [] → BrTiles raw →
@@ -281,7 +281,7 @@ theorem scanVariable_spec {t r n : List Char} (h : scanVariable t = some (n, r))
   · cases h
 
 theorem scanFuncOpen_spec {t r n : List Char} (h : scanFuncOpen t = some (n, r)) :
-    ∃ ws ws2, t = ws ++ ((n ++ (ws2 ++ ['('])) ++ r) ∧ AllSpace ws ∧ AllSpace ws2 ∧ IdentShape n ∧ 2 ≤ n.length := by
+    ∃ ws ws2, t = ws ++ ((n ++ (ws2 ++ ['('])) ++ r) ∧ AllSpace ws ∧ AllSpace ws2 ∧ IdentShape n ∧ 1 ≤ n.length := by
   obtain ⟨ws, hws, hsp⟩ := skipWs_split t
   unfold scanFuncOpen at h
   split at h
@@ -290,27 +290,22 @@ theorem scanFuncOpen_spec {t r n : List Char} (h : scanFuncOpen t = some (n, r))
     · rename_i hc
       simp only at h
       split at h
-      · cases h
-      · rename_i hw
+      · rename_i d r2 heq2
         split at h
-        · rename_i d r2 heq2
-          split at h
-          · rename_i hd
-            simp only [Option.some.injEq, Prod.mk.injEq] at h
-            obtain ⟨rfl, rfl⟩ := h
-            subst hd
-            obtain ⟨ws2, hws2, hsp2⟩ := skipWs_split (r'.dropWhile isWord)
-            refine ⟨ws, ws2, ?_, hsp, hsp2, ⟨c, _, rfl, hc, allWord_takeWhile r'⟩, ?_⟩
-            · rw [hws, heq]
-              have h1 : r' = r'.takeWhile isWord ++ r'.dropWhile isWord := (List.takeWhile_append_dropWhile).symm
-              rw [heq2] at hws2
-              conv => lhs; rw [h1, hws2]
-              simp
-            · cases hw' : r'.takeWhile isWord with
-              | nil => simp [hw'] at hw
-              | cons a as => simp
-          · cases h
+        · rename_i hd
+          simp only [Option.some.injEq, Prod.mk.injEq] at h
+          obtain ⟨rfl, rfl⟩ := h
+          subst hd
+          obtain ⟨ws2, hws2, hsp2⟩ := skipWs_split (r'.dropWhile isWord)
+          refine ⟨ws, ws2, ?_, hsp, hsp2, ⟨c, _, rfl, hc, allWord_takeWhile r'⟩, ?_⟩
+          · rw [hws, heq]
+            have h1 : r' = r'.takeWhile isWord ++ r'.dropWhile isWord := (List.takeWhile_append_dropWhile).symm
+            rw [heq2] at hws2
+            conv => lhs; rw [h1, hws2]
+            simp
+          · exact Nat.succ_le_succ (Nat.zero_le _)
         · cases h
+      · cases h
     · cases h
   · cases h
 
